@@ -31,8 +31,10 @@ package data
 //@ at return assert a-decoding-failure-never-returns-normally: err == nil
 //@ func data.consumeUnixFSData$1
 //@ may_panic
+//@ at return assert a-decoding-failure-never-returns-normally: err == nil
 //@ func data.consumeUnixFSData$2
 //@ may_panic
+//@ at return assert a-decoding-failure-never-returns-normally: err == nil
 
 // Bounded work: every iteration of a decoder loop consumes at least one byte.
 //@ func data.consumeUnixFSData
